@@ -77,12 +77,18 @@ pub struct ISmh<F: num::Float + rand_distr::uniform::SampleUniform + std::fmt::D
     m: usize,
     fed: usize,
 }
-impl<F: num::Float + rand_distr::uniform::SampleUniform + std::fmt::Debug + Send, H: std::hash::Hasher + Default> ISmh<F, H> {
+impl<F: num::Float + rand_distr::uniform::SampleUniform + std::fmt::Debug + Send, H: std::hash::Hasher + Default> ISmh<F, H>
+where
+    rand::distr::StandardUniform: rand::distr::Distribution<F>,
+{
     pub fn new(m: usize) -> Self {
         ISmh { s: SuperMinHash::new(m, BuildHasherDefault::<H>::default()), m, fed: 0 }
     }
 }
-impl<F: num::Float + rand_distr::uniform::SampleUniform + std::fmt::Debug + Send, H: std::hash::Hasher + Default> Inst for ISmh<F, H> {
+impl<F: num::Float + rand_distr::uniform::SampleUniform + std::fmt::Debug + Send, H: std::hash::Hasher + Default> Inst for ISmh<F, H>
+where
+    rand::distr::StandardUniform: rand::distr::Distribution<F>,
+{
     fn apply(&mut self, op: &Op) -> Applied {
         let s = &mut self.s;
         match op {
@@ -263,12 +269,18 @@ macro_rules! dens_inst {
         pub struct $name<F: crate::dens::FBits + Send, H: std::hash::Hasher + Default = FnvHasher> {
             s: $ty<F, u64, H>,
         }
-        impl<F: crate::dens::FBits + Send, H: std::hash::Hasher + Default> $name<F, H> {
+        impl<F: crate::dens::FBits + Send, H: std::hash::Hasher + Default> $name<F, H>
+        where
+            rand::distr::StandardUniform: rand::distr::Distribution<F>,
+        {
             pub fn new(m: usize) -> Self {
                 $name { s: $ty::new(m, BuildHasherDefault::<H>::default()) }
             }
         }
-        impl<F: crate::dens::FBits + Send, H: std::hash::Hasher + Default> Inst for $name<F, H> {
+        impl<F: crate::dens::FBits + Send, H: std::hash::Hasher + Default> Inst for $name<F, H>
+        where
+            rand::distr::StandardUniform: rand::distr::Distribution<F>,
+        {
             fn apply(&mut self, op: &Op) -> Applied {
                 let s = &mut self.s;
                 match op {
